@@ -33,6 +33,7 @@ type c19Case struct {
 	Mode       string `json:"mode"` // once | twice | concurrent | stop-only
 	Pool       int    `json:"pooled_conns"`
 	NoActive   bool   `json:"no_active_checks,omitempty"` // active health checks off: nothing to wait for, the rest of the shutdown is the same
+	Tunnel     bool   `json:"open_tunnel,omitempty"`      // an upgraded (hijacked) connection is open through the proxy when the signal arrives and stays open
 }
 
 func c19Run(e *vh.Env, c c19Case, o *vh.Out) {
@@ -94,6 +95,26 @@ func c19Run(e *vh.Env, c c19Case, o *vh.Out) {
 		}()
 	} else {
 		close(reqDone)
+	}
+	if c.Tunnel {
+		// a protocol switch through the proxy; neither end closes it before the verdicts are in
+		tc, err := net.Dial("tcp", sys.Addr)
+		if err != nil {
+			o.Inconcl("tunnel dial: %v", err)
+			return
+		}
+		defer tc.Close()
+		sc := vh.Script{Raw: "HTTP/1.1 101 Switching Protocols\r\nUpgrade: verif-proto\r\nConnection: Upgrade\r\n\r\n", RawHoldMs: 3600000}
+		fmt.Fprintf(tc, "GET /tunnel HTTP/1.1\r\nHost: %s\r\nConnection: Upgrade\r\nUpgrade: verif-proto\r\n%s: %s\r\n\r\n", sys.Addr, vh.ScriptHeader, sc.Encode())
+		tc.SetReadDeadline(time.Now().Add(20 * time.Second))
+		buf := make([]byte, 4096)
+		n, _ := tc.Read(buf)
+		if !strings.HasPrefix(string(buf[:n]), "HTTP/1.1 101") {
+			o.Inconcl("tunnel handshake answered %q", trunc(string(buf[:n]), 60))
+			return
+		}
+		tc.SetReadDeadline(time.Time{})
+		o.Obs("shutdowns_with_open_tunnel", 1)
 	}
 	time.Sleep(time.Duration(c.StopAtMs)*time.Millisecond - time.Since(born))
 	probesBefore := len(bes[0].Probes()) + len(bes[1].Probes())
@@ -280,6 +301,10 @@ func init() {
 					cs = append(cs, c19Case{Strategy: allStrategies[(i+j+2)%5], Interval: 10, ProbeTO: 3, ShutdownTO: 1, StopAtMs: 1200 + 700*j, Inflight: inflight, ReqMs: 800, Mode: mode, Pool: i - 1})
 				}
 			}
+			// an upgraded connection stays open across the shutdown: nobody waits for it
+			for i, mode := range []string{"once", "concurrent", "stop-only", "twice"} {
+				cs = append(cs, c19Case{Strategy: allStrategies[i%5], Interval: 2, ProbeTO: 1, ShutdownTO: 3, StopAtMs: 900 + 400*i, Inflight: "none", ReqMs: 1500, Mode: mode, Pool: i - 1, NoActive: i%2 == 1, Tunnel: true})
+			}
 			// the same without active health checks
 			for i, mode := range []string{"once", "twice", "concurrent", "stop-only"} {
 				for j, inflight := range []string{"none", "headers", "body"} {
@@ -292,7 +317,7 @@ func init() {
 			return cs
 		},
 		func(e *vh.Env, c c19Case, o *vh.Out) {
-			o.Need("shutdowns", "inflight_completed", "probe_silence_checked", "pooled_closed", "late_put_refused", "shutdowns_without_active_checks")
+			o.Need("shutdowns", "inflight_completed", "probe_silence_checked", "pooled_closed", "late_put_refused", "shutdowns_without_active_checks", "shutdowns_with_open_tunnel")
 			c19Run(e, c, o)
 			o.Distinct(vh.J(c))
 			if c.Mode == "concurrent" && c.Inflight == "body" && c.Interval == 2 && c.StopAtMs == 2001 {
@@ -400,13 +425,15 @@ func init() {
 		// ShutdownS / UptimeMs: a shorter shutdown timeout and a process that has been up for longer than it
 		ShutdownS int `json:"shutdown_timeout_s,omitempty"`
 		UptimeMs  int `json:"uptime_before_request_ms,omitempty"`
+		// Again: an impatient operator (or a supervisor) repeats the signal 100 ms later, during the drain
+		Again bool `json:"signal_repeated,omitempty"`
 	}
 	vh.AddPart("C19", "process", "plain", vh.Opts{Shards: 8, Procs: 2, TimeoutS: 400, TimeoutSThorough: 1500, NeedBin: true},
 		func(e *vh.Env) []c19Proc {
 			var cs []c19Proc
 			r := e.Rand("c19proc")
 			for i := 0; i < e.Pick(10, 60); i++ {
-				cs = append(cs, c19Proc{Signal: []string{"TERM", "INT"}[i%2], AfterMs: 50 + r.Intn(400), ReqMs: 700, Phase: []string{"body", "headers"}[(i/2)%2], Idx: i})
+				cs = append(cs, c19Proc{Signal: []string{"TERM", "INT"}[i%2], AfterMs: 50 + r.Intn(400), ReqMs: 700, Phase: []string{"body", "headers"}[(i/2)%2], Idx: i, Again: i%3 == 1})
 			}
 			// a process that has been up for longer than its shutdown timeout: the timeout counts from the signal
 			for i := 0; i < e.Pick(4, 8); i++ {
@@ -415,7 +442,7 @@ func init() {
 			return cs
 		},
 		func(e *vh.Env, c c19Proc, o *vh.Out) {
-			o.Need("process_runs", "process_clean_exits", "signals_after_uptime_beyond_shutdown_timeout")
+			o.Need("process_runs", "process_clean_exits", "signals_after_uptime_beyond_shutdown_timeout", "signals_repeated_during_drain")
 			be := vh.NewBackend("b0")
 			defer be.Close()
 			cfg := baseConfig("round_robin", []*vh.Backend{be})
@@ -504,6 +531,11 @@ func init() {
 			}
 			t0 := time.Now()
 			cmd.Process.Signal(sig)
+			if c.Again {
+				time.Sleep(100 * time.Millisecond)
+				cmd.Process.Signal(sig)
+				o.Obs("signals_repeated_during_drain", 1)
+			}
 			o.Eval(1)
 			o.Obs("process_runs", 1)
 			o.Distinct(vh.J(c))
